@@ -22,7 +22,7 @@ RULE = ("objects = LASFiles built in memory or read back from text (mnemonic_cas
         "specs with duplicated, blank and case-variant mnemonics in ~W/~P/~C/custom sections, float and text curves, "
         "string curves whose samples all look numeric, post-deletion states with stale suffixes, a deterministic grid of duplicate layouts, and every readable corpus file; each object x {pickle protocol "
         "0..5, deepcopy} x {whole LASFile, every section, every item}. distinct = distinct (object spec, method); "
-        "non-trivial = object with at least one disambiguated (duplicate or blank) mnemonic Added later: identity-sensitive header values (the np.nan object, fresh NaNs, None, bools, numpy scalars), re-ordered / aliased column views, names assigned after construction, pickle's pure-Python unpickler.")
+        "non-trivial = object with at least one disambiguated (duplicate or blank) mnemonic Added later: identity-sensitive header values (the np.nan object, fresh NaNs, None, bools, numpy scalars), re-ordered / aliased column views, names assigned after construction, pickle's pure-Python unpickler. Round 8: objects in which two items answer to one session name.")
 ASSUMPTIONS = ["write() output is compared only when the original itself can be written",
                "observable equality = canonical snapshot (rv/canon.py) + write() text; identity of objects is not required"]
 REQUIRED = ["copies_compared", "objects_with_edited_index", "objects_with_disambiguated_mnemonic", "independence_checks", "write_text_comparisons",
@@ -51,7 +51,7 @@ def grid(tier):
             for c in spec["curves"]:
                 c[4] = (c[4] * 4)[:4]
             spec["curves"][0][4] = [100.0 + 0.5 * i for i in range(4)]
-        variant = ["numeric_text_curve", "stale_suffix", "edited_index", "padded_names", "singleton_values", "reordered_views"][k % 6]
+        variant = ["numeric_text_curve", "stale_suffix", "edited_index", "padded_names", "singleton_values", "reordered_views", "session_name_clash"][k % 7]
         yield {"kind": "spec", "spec": spec, "via": "upper" if variant == "edited_index" else ("preserve" if variant == "reordered_views" and k % 4 < 2 else None), "methods": METHODS, "variant": variant}
     for sect, names in GRID_SPECS:
         for via in (None, "preserve", "upper", "lower"):
@@ -67,7 +67,7 @@ def n_random(tier):
 def random_case(rng, tier):
     spec = lasobj.rand_spec(rng)
     via = rng.choice([None, None, "preserve", "upper", "lower"])
-    return {"kind": "spec", "spec": spec, "via": via, "methods": rng.sample(METHODS, 3), "seed_variant": rng.randrange(7)}
+    return {"kind": "spec", "spec": spec, "via": via, "methods": rng.sample(METHODS, 3), "seed_variant": rng.randrange(8)}
 
 
 def layout_spec(section, names):
@@ -120,7 +120,7 @@ def run_case(case, ctx):
         if via and (case["kind"] == "layout" or text_can_carry(spec)) and not _has_custom_or_textcurve(spec):
             spec["via_text"] = {"read": {"mnemonic_case": via}}
         methods = case.get("methods", METHODS)
-        variant = case.get("variant") or ("none" if case["kind"] == "layout" else ["none", "numeric_text_curve", "stale_suffix", "edited_index", "padded_names", "singleton_values", "reordered_views"][case.get("seed_variant", 0) % 7])
+        variant = case.get("variant") or ("none" if case["kind"] == "layout" else ["none", "numeric_text_curve", "stale_suffix", "edited_index", "padded_names", "singleton_values", "reordered_views", "session_name_clash"][case.get("seed_variant", 0) % 8])
 
         def rebuild():
             las = lasobj.build(lasio, spec)
@@ -164,6 +164,14 @@ def run_case(case, ctx):
                     las.append_curve_item(item)
                     las.curves[1].data = las.curves[2].data
                     ctx.count("objects_with_reordered_or_aliased_curve_arrays")
+            if variant == "session_name_clash":
+                # a curve and a parameter renamed onto names already in use (the documented way to rename is the attribute): two items
+                # then answer to one session name; a copy has to carry exactly these names, not renumber them
+                if len(las.curves) >= 3:
+                    list.__getitem__(las.curves, 2).mnemonic = list.__getitem__(las.curves, 1).original_mnemonic
+                if len(las.params) >= 2:
+                    list.__getitem__(las.params, 1).mnemonic = list.__getitem__(las.params, 0).original_mnemonic
+                ctx.count("objects_with_two_items_under_one_session_name")
             if variant == "stale_suffix":
                 # delete the first member of every duplicate family: the survivors keep their (now stale) suffixes
                 for sec in las.sections.values():
